@@ -444,7 +444,9 @@ def probe_cases(rng, tier):
     sl = dict(scenarios.single_lattice(rng, tier))
     for k in ('rod2-adiabatic', 'rod3-flowgap', 'rod3-dd-flowbyp',
               'multi-simple', 'multi-6node', 'lowfi-6node',
-              'rod2-convapprox', 'rod3-wirecw-mit'):
+              'rod2-convapprox', 'rod3-wirecw-mit', 'opt-se2geo',
+              'opt-3duct-convapprox', 'opt-dd-regions-adiabatic-gravity',
+              'opt-uctd-grid-regions', 'opt-delta-temp-bc-noflowgap'):
         lab.append((k, sl[k]))
     if tier == 'thorough':
         for k in ('rod4-adiabatic', 'rod5-dd', 'rod3-3duct', 'rod2-laminar',
